@@ -1,7 +1,9 @@
 import Model.Cache
 import Proofs.Cache
 import Proofs.CacheLru
+import Proofs.CacheLruSpec
 import Proofs.CacheSys
+import Proofs.CacheMicro
 /-!
 # C17 — Resolver caches never serve stale data, honour the LRU bound, are linearizable
 
@@ -72,6 +74,19 @@ theorem latest_unexpired_cache (iv t0 : Nat) (ops : List Op) (k : Key) :
     (stepC (reachC iv t0 ops) (.get k)).2 = specGet (specRun (fun _ => none) ops) (reachC iv t0 ops).now k :=
   get_of_refC _ _ k (refC_run _ _ ops (refC_init iv t0))
 
+/-- `LRUCache`, the full statement: after any operation sequence a lookup returns exactly what the specification
+`SpecL` prescribes — the answer of the timed map (`specRun`: most recent `put` of the key not followed by a flush;
+the same history function as for `Cache`, blind to eviction and expiry) provided the key is still in the recency
+list and the answer has not expired, and nothing otherwise.  The recency list is defined on keys alone: a `put` or a
+hit moves the key to the front, a flush or a found-expired lookup removes it, and the only other way out is the tail
+cut `take (max_size - 1)` of `put` / `take max_size` of `set_max_size`: eviction, least recently used first. -/
+theorem latest_unexpired_lru_refines (n : Int) (t0 : Nat) (ops : List Op) (k : Key) :
+    (stepL (reachL n t0 ops) (.get k)).2 = specGetL (specRunL (specInitL n t0) ops) k ∧
+    (specRunL (specInitL n t0) ops).m = specRun (fun _ => none) ops ∧
+    (reachL n t0 ops).ring.map (·.key) = (specRunL (specInitL n t0) ops).recency := by
+  have h := refLS_run (initL n t0) (specInitL n t0) ops (invL_init n t0) (refLS_init n t0)
+  exact ⟨get_of_refLS _ _ k h, specRunL_m _ ops, h.keys⟩
+
 /-- `LRUCache`, soundness: whatever a lookup returns after any operation sequence is the most recent `put` of that
 key, not flushed since, and unexpired. -/
 theorem latest_unexpired_lru (n : Int) (t0 : Nat) (ops : List Op) (k : Key) (v : Nat)
@@ -94,6 +109,10 @@ theorem lru_get_present (n : Int) (t0 : Nat) (ops : List Op) (k : Key) (nd : Nod
   simp [this]
 
 example : (stepL (reachL 2 1000 [.put 1 ⟨7, 1010⟩, .put 1 ⟨8, 1020⟩]) (.get 1)).2 = .val 8 := by decide
+-- the specification alone: key 0 is evicted by the third put into a cache of 2, key 1 survives because it was hit
+example : (specRunL (specInitL 2 0) [.put 0 ⟨0, 9⟩, .put 1 ⟨1, 9⟩, .get 0, .get 1, .put 2 ⟨2, 9⟩]).recency = [2, 1] := by decide
+example : specGetL (specRunL (specInitL 2 0) [.put 0 ⟨0, 9⟩, .put 1 ⟨1, 9⟩, .get 0, .get 1, .put 2 ⟨2, 9⟩]) 0 = .none := by decide
+example : specGetL (specRunL (specInitL 2 0) [.put 0 ⟨0, 9⟩, .put 1 ⟨1, 9⟩, .get 0, .get 1, .put 2 ⟨2, 9⟩]) 1 = .val 1 := by decide
 example : specRun (fun _ => none) [.put 1 ⟨7, 1010⟩, .put 1 ⟨8, 1020⟩, .flush 1] 1 = none := by decide
 
 /-! ## ring and dict agree -/
@@ -281,6 +300,70 @@ theorem linearizable_cache (iv t0 : Nat) (progs : Nat → List Op) (sched : List
   have hacq : y.acq.map (fun e => e.2) = y.ran.map (fun e => e.2.1) := by
     rw [← h.2.2.2.1 hl, List.map_map]; rfl
   rw [runC_eq_runG, hacq]; exact h.1
+
+/-! ### the finer model: `acquire; steps…; release`, nothing atomic by construction
+
+In `MSys` every command of every thread is a step of its own and the scheduler may pick any thread at any moment:
+argument evaluation, each statement of a method body (statistics reads of `hits()` / `misses()` /
+`get_hits_for_key`, the three statements of `_maybe_clean`, `node.unlink()`, the expiry test, `link_after`, the
+counter updates, …) and the return.  A shared access (`acc`) is executed **whether or not** the thread holds the
+lock; what protects the cache is only the discipline of the code (`disc`: shared accesses lie between the single
+`acquire` and the single `release` of the call) — the thing the access monitor checks on the real methods. -/
+
+/-- "every concurrent history is equivalent to some sequential one", from the lock discipline: if every call keeps
+the discipline and, run alone, is the sequential operation it stands for (`Good`), then for any number of threads,
+any programs and **any schedule**, at every moment
+(1) with the lock free, the shared state is the sequential object after the operations in lock-acquisition order;
+(2) each thread has received (or, having left its critical section, is about to return) exactly the results that
+    sequential run gives to its own operations;
+(3) **the discipline is an invariant of the run**: a thread whose next command touches shared state holds the lock. -/
+theorem linearizable_fine {σ ρ : Type} (step : σ → Op → σ × Out) (s0 : σ) (progs : Nat → List (Call σ ρ))
+    (hg : ∀ j, ∀ c ∈ progs j, Good step c) (sched : List Nat) :
+    let y := mRun (mInit s0 progs) sched
+    (y.lock = none → y.shared = (runG step s0 (y.acq.map (·.2))).1) ∧
+    (∀ j, (y.threads j).outs ++ pending (y.threads j) = outsOf step s0 (doneOps y) j) ∧
+    (∀ j r f k, (y.threads j).cur = some r → r.rest = .acc f :: k → y.lock = some j) := by
+  intro y
+  have h := mInv_run step s0 (mInit s0 progs) sched (mInv_init step s0 progs hg)
+  refine ⟨fun hl => ?_, h.outs, fun j r f k hr he => ?_⟩
+  · have := h.lockSt; rw [hl] at this; exact this
+  · exact holder_cur step s0 _ j h r hr (by rw [he]; rfl) (by rw [he]; rfl)
+
+/-- the methods of `LRUCache`, statement by statement (`codeL`), keep the discipline and implement `stepL`; so any
+threads running any sequences of them under any schedule see the sequential `LRUCache` in acquisition order. -/
+theorem linearizable_fine_lru (n : Int) (t0 : Nat) (progs : Nat → List Op) (sched : List Nat) :
+    let y := mRun (mInit (initL n t0) (fun j => (progs j).map callL)) sched
+    (y.lock = none → y.shared = (runL (initL n t0) (y.acq.map (·.2))).1) ∧
+    (∀ j, (y.threads j).outs ++ pending (y.threads j) = outsOf stepL (initL n t0) (doneOps y) j) ∧
+    (∀ j r f k, (y.threads j).cur = some r → r.rest = .acc f :: k → y.lock = some j) := by
+  intro y
+  have h := linearizable_fine stepL (initL n t0) (fun j => (progs j).map callL)
+    (fun j c hc => by obtain ⟨op, _, rfl⟩ := List.mem_map.mp hc; exact good_callL op) sched
+  refine ⟨fun hl => ?_, h.2.1, h.2.2⟩
+  rw [runL_eq_runG]; exact h.1 hl
+
+/-- the same for `Cache` (`codeC`, including `_maybe_clean` statement by statement). -/
+theorem linearizable_fine_cache (iv t0 : Nat) (progs : Nat → List Op) (sched : List Nat) :
+    let y := mRun (mInit (initC iv t0) (fun j => (progs j).map callC)) sched
+    (y.lock = none → y.shared = (runC (initC iv t0) (y.acq.map (·.2))).1) ∧
+    (∀ j, (y.threads j).outs ++ pending (y.threads j) = outsOf stepC (initC iv t0) (doneOps y) j) ∧
+    (∀ j r f k, (y.threads j).cur = some r → r.rest = .acc f :: k → y.lock = some j) := by
+  intro y
+  have h := linearizable_fine stepC (initC iv t0) (fun j => (progs j).map callC)
+    (fun j c hc => by obtain ⟨op, _, rfl⟩ := List.mem_map.mp hc; exact good_callC op) sched
+  refine ⟨fun hl => ?_, h.2.1, h.2.2⟩
+  rw [runC_eq_runG]; exact h.1 hl
+
+/-- the hypothesis is needed: a `hits()` that reads the counter *before* taking the lock breaks the discipline
+(`disc` rejects it), so `linearizable_fine` does not apply to it. -/
+example : disc (σ := LState) (ρ := Regs) .pre
+    [.acc (fun r s => ({ r with n := s.hits }, s)), .acquire, .release, .loc (fun r => { r with out := .num r.n })] = false := rfl
+
+/-- two threads, alternating command by command: thread 1's `get` runs between thread 0's `put` and `hits()` -/
+example :
+    (mRun (mInit (initL 2 0) (fun j => if j = 0 then [callL (.put 0 ⟨5, 9⟩), callL .hits]
+        else if j = 1 then [callL (.get 0), callL (.setMax 1)] else [])) ((List.range 40).map (· % 2))).acq
+      = [(0, .put 0 ⟨5, 9⟩), (1, .get 0), (0, .hits), (1, .setMax 1)] := by decide
 
 /-- two threads, a schedule where thread 1 gets the lock between thread 0's two operations -/
 example :
